@@ -162,7 +162,14 @@ def llvm_rejected(chk, idx):
     stem = rng.choice(["file", "file_branch", "reader"])
     gn = open(os.path.join(vlib.REPO, "test", "llvm", stem + ".gcno"), "rb").read()
     gda = open(os.path.join(vlib.REPO, "test", "llvm", stem + ".gcda"), "rb").read()
-    cut = rng.randrange(12, len(gda) - 1)
+    # cut inside a record, at least one whole word after the last record boundary: a started, incomplete record - every
+    # reader of the format has to reject that (decided on the file's structure, not by asking the reader)
+    import struct
+    bounds, pos = [12], 12
+    while pos + 8 <= len(gda) and struct.unpack("<I", gda[pos:pos + 4])[0] != 0:      # (a zero tag ends the file: nothing after it is read)
+        pos += 8 + 4 * struct.unpack("<I", gda[pos + 4:pos + 8])[0]
+        bounds.append(pos)
+    cut = rng.choice([c for c in range(16, bounds[-1]) if c - max(b for b in bounds if b <= c) >= 4])
     layout = rng.choice(["good+cut", "cut+good", "cut"])
     dirs = {"good+cut": [("a", gda), ("b", gda[:cut])], "cut+good": [("a", gda[:cut]), ("b", gda)], "cut": [("a", gda[:cut])]}[layout]
     os.makedirs(os.path.join(ind, "notes"), exist_ok=True)
@@ -177,12 +184,10 @@ def llvm_rejected(chk, idx):
         args.append(os.path.join(ind, "s%d.info" % i))
     branch = rng.random() < 0.6
     threads = rng.choice([1, 2, 4])
-    # does the reader reject this cut?  (a cut at a record boundary can leave a well-formed shorter file)
+    # (what the library's reader says about these files, for the replay file only: the expectation does not depend on it)
     probe = vlib.run_impl("gcno", [{"gcno": gn.hex(), "gcdas": [x.hex() for _, x in dirs], "branch": branch, "stem": stem}], chk.pid)[0]
     parsed = vlib.run_impl("parse", [{"hex": b.hex(), "format": "info", "branch": branch} for b in small], chk.pid)
     batches = [[[n, gen.cov_canon(c)] for n, c in r["ok"]] for r in parsed if "ok" in r]
-    if "ok" in probe:
-        batches.append([[n, gen.cov_canon(c)] for n, c in probe["ok"]])
     rc, out, err = pipeline.run_cli(args, threads, branch, timeout=LIMIT, cwd=root, extra=rng.choice([[], ["--llvm"]]))
     chk.count()
     hist = {"small_inputs": [b.decode() for b in small], "unit": "test/llvm/%s.gcno with gcda files %s (cut = first %d of %d bytes)" % (stem, layout, cut, len(gda)),
